@@ -178,6 +178,71 @@ Theorem C20_delimiter_all_five : forall d, In d src_delims.
 Proof. intros d. destruct d; vm_compute; tauto. Qed.
 Print Assumptions C20_delimiter_all_five.
 
+(* --- the separator decision (which separator wins for which texts), for the regenerated list *)
+
+(* the decision never changes WHAT is read: a text accepted under any separator is read as the numbers of its
+   non-blank lines, in order — the separators only decide WHETHER it is accepted *)
+Theorem C20_delimiter_reads_the_numbers :
+  forall ls t, detect src_delims ls = Some t -> t = numbers_of ls.
+Proof. intros ls t. apply detect_numbers. Qed.
+Print Assumptions C20_delimiter_reads_the_numbers.
+
+(* priority: the first separator of the source's list under which the whole text parses decides *)
+Theorem C20_delimiter_priority :
+  forall ls, detect src_delims ls = match winner src_delims ls with Some d => try_parse d ls | None => None end.
+Proof. intros ls. apply detect_winner. Qed.
+Print Assumptions C20_delimiter_priority.
+
+(* ... and the order in which the separators are tried is irrelevant to the result (any list with the same
+   members gives the same answer on every text) *)
+Theorem C20_delimiter_order_irrelevant :
+  forall order ls, (forall d, In d order <-> In d src_delims) -> detect order ls = detect src_delims ls.
+Proof. intros order ls H. apply detect_order_irrelevant. exact H. Qed.
+Print Assumptions C20_delimiter_order_irrelevant.
+
+(* what a separator d needs to accept a line: d occurs exactly (columns - 1) times, every other separator
+   character of the line is a blank, and the row read is the line's numbers *)
+Theorem C20_delimiter_accepts_only :
+  forall d l row, parse_line d l = Some row ->
+    S (count_sep d l) = List.length row /\ others_blank d l = true /\ row = nums_of l.
+Proof.
+  intros d l row H. destruct (parse_line_needs d l row H) as [A B].
+  repeat split; try assumption. apply (parse_line_nums d l row H).
+Qed.
+Print Assumptions C20_delimiter_accepts_only.
+
+(* regular texts — the same run of separator characters (a "gap": ", " or " | " or tab + blank ...) between every
+   two neighbours: a rectangular table is read back unchanged iff some separator of the list reads the gap (occurs
+   once in it, the rest blanks); with two or more columns it is refused otherwise *)
+Theorem C20_delimiter_gap :
+  forall g t, rectangular t = true -> existsb (fun d => gap_ok d g) src_delims = true ->
+    detect src_delims (render_gap g t) = Some t.
+Proof.
+  intros g t R E. apply existsb_exists in E. destruct E as [d [Hin G]]. apply (detect_gap src_delims g t d Hin G R).
+Qed.
+Print Assumptions C20_delimiter_gap.
+
+Theorem C20_delimiter_gap_refused :
+  forall g x y r t, existsb (fun d => gap_ok d g) src_delims = false ->
+    detect src_delims (render_gap g ((x :: y :: r) :: t)) = None.
+Proof.
+  intros g x y r t E. apply detect_gap_refused. intros d Hin.
+  destruct (gap_ok d g) eqn:G; [|reflexivity]. exfalso.
+  assert (X : existsb (fun d => gap_ok d g) src_delims = true) by (apply existsb_exists; exists d; auto). congruence.
+Qed.
+Print Assumptions C20_delimiter_gap_refused.
+
+(* the decision table for some gaps: ", " and " | " and tab + blank are read; two blanks, ",;" and ", ," are not *)
+Example C20_delimiter_gap_table :
+  map (fun g => filter (fun d => gap_ok d g) src_delims)
+      [[DComma; DSpace]; [DSpace; DBar; DSpace]; [DTab; DSpace]; [DSpace; DSpace]; [DComma; DSemicolon];
+       [DComma; DSpace; DComma]; [DSemicolon]]
+  = [[DComma]; [DBar]; [DTab; DSpace]; []; []; []; [DSemicolon]]
+  /\ detect src_delims (render_gap [DComma; DSpace] [[1; 2]; [3; 4]]) = Some [[1; 2]; [3; 4]]
+  /\ detect src_delims (render_gap [DSpace; DSpace] [[1; 2]; [3; 4]]) = None
+  /\ winner src_delims (render_gap [DTab; DSpace] [[1; 2]]) = Some DTab.
+Proof. vm_compute. auto. Qed.
+
 Example C20_delimiter_example :
   detect src_delims (render DBar [[1; -2]; [3; 4]]) = Some [[1; -2]; [3; 4]]
   /\ rectangular [[1; -2]; [3; 4]] = true.
